@@ -236,6 +236,8 @@ class FakeSocket:
         if f:
             if f not in INTERRUPTS:
                 self.faulted = True
+            if f in ("reset", "pipe"):
+                self.torn = True        # the connection is gone: a later shutdown() fails with ENOTCONN, close() still works
             raise make_exc("timeout" if f == "partial" else f)
 
     def send(self, data):
@@ -258,6 +260,8 @@ class FakeSocket:
         if f:
             if f not in INTERRUPTS:
                 self.faulted = True
+            if f in ("reset", "pipe"):
+                self.torn = True
             self._ev("recv", c=self.net.call_id, tmo=self.tmo, n=0, own=[], fault=f)
             raise make_exc(f)
         conn = self.conn
@@ -309,7 +313,7 @@ class FakeSocket:
     def shutdown(self, how):
         # like a real socket: shutting down a connection the peer has already torn down fails with ENOTCONN
         self._check_usable("shutdown")
-        if self.state != "connected" or (self.conn is not None and self.conn.peer_closed):
+        if self.state != "connected" or getattr(self, "torn", False) or (self.conn is not None and self.conn.peer_closed):
             raise OSError(errno.ENOTCONN, "Transport endpoint is not connected")
 
 
